@@ -158,6 +158,10 @@ def run_case(case):
                         extra_mode = None
                     else:
                         hist["geometry:" + extra_mode] = hist.get("geometry:" + extra_mode, 0) + 1
+                        if extra_mode == "axis":
+                            # an exactly vanishing sign is forced to +1 (F-MIRROR's mechanism): the system is no longer
+                            # consistent, which is outside the specification of lsq_linear (C05)
+                            method = None
                 a = static.solve(r0, fit=fit, method=method)
             except Exception as exc:
                 hist["reference-raised"] = hist.get("reference-raised", 0) + 1
